@@ -2,7 +2,7 @@
 import random
 
 ERROR_FORMS = ["default", "default", "class", "instance", "factory"]
-EXC_FAULTS = ["FaultError", "FaultBase", "KeyboardInterrupt", "SystemExit", "GeneratorExit", "RecursionError", "MemoryError", "AssertionError"]
+EXC_FAULTS = ["FaultError", "FaultBase", "KeyboardInterrupt", "SystemExit", "GeneratorExit", "RecursionError", "MemoryError", "AssertionError", "KeyError", "AttributeError"]
 
 
 def rng_for(seed, prop, i):
@@ -26,6 +26,8 @@ def gen_unit_spec(r, name, is_async, max_pre=3, max_post=2, max_snap=2, forms=Tr
         u["async"] = True
     if kind:
         u["kind"] = kind
+    if kind is None and r.random() < 0.2:
+        u["kwargs"] = True  # the function also accepts **kwargs (reserved names may then be passed by a caller)
     u["pre"] = [gen_contract(r, is_async, forms) for _ in range(r.randint(0, max_pre))]
     u["post"] = [gen_contract(r, is_async, forms) for _ in range(r.randint(0, max_post))]
     if u["post"]:
@@ -203,6 +205,9 @@ def gen_ticket(r, tid, units, profile, depth=0, u=None):
                 body["fault"] = f
             else:
                 sites.setdefault(sid, {})["fault"] = f
+    if u["spec"].get("kwargs") and u["obj"] is None and r.random() < profile.get("p_reserved", 0.2):
+        # a caller passing a reserved name as keyword argument (rejected with TypeError where it would clash)
+        td["kw"] = {r.choice(["result", "OLD", "_ARGS", "_KWARGS", "other"]): 0}
     if sites:
         td["sites"] = sites
     if body:
